@@ -187,8 +187,8 @@ func e2eHarness(rc *RunCtx) {
 		// a second client (other provider, same constructor list) and a second,
 		// unused processor (same constructor list, its own AddMiddleware):
 		// neither may influence the first
-		env.client2 = simsvc.NewFSimSvcClient(frugal.NewFServiceProvider(env.tr, env.pf, prov2MW...), cliMW...)
-		proc2 := simsvc.NewFSimSvcProcessor(&simHandler{env: env}, srvMW...)
+		env.client2 = simsvc.NewFLeafClient(frugal.NewFServiceProvider(env.tr, env.pf, prov2MW...), cliMW...)
+		proc2 := simsvc.NewFLeafProcessor(&simHandler{env: env}, srvMW...)
 		proc2.AddMiddleware(env.middleware(mwSpec{name: "srv-other-processor"}))
 		env.prov2Spec = prov2Spec
 		g := &e2eGen{rc: rc, env: env}
@@ -323,10 +323,10 @@ func (g *e2eGen) newPlan(id int) *callPlan {
 	tp := g.rc.Tape
 	p := &callPlan{id: id, tag: fmt.Sprintf("t%d", id), outcome: "ok"}
 	g.headers(p)
-	methods := []string{"basePing", "baseNote", "echoItem", "doVoid", "add", "blob", "bigString", "mixed", "URLFor", "shapes", "many", "choose", "color", "stamp", "headersSeen", "fire"}
+	methods := []string{"basePing", "baseNote", "echoItem", "doVoid", "add", "blob", "bigString", "mixed", "URLFor", "shapes", "leafPing", "many", "choose", "color", "stamp", "headersSeen", "fire"}
 	switch g.rc.Prop {
 	case "C16":
-		methods = []string{"basePing", "basePing", "basePing", "basePing", "echoItem", "doVoid", "fire", "baseNote"}
+		methods = []string{"basePing", "basePing", "basePing", "basePing", "echoItem", "doVoid", "fire", "baseNote", "leafPing"}
 	case "C09":
 		methods = []string{"basePing", "add", "echoItem", "fire", "headersSeen"}
 	case "C12":
@@ -432,6 +432,14 @@ func (g *e2eGen) newPlan(id int) *callPlan {
 			p.ret = &simbase.BaseErr{Why: genString(tp, "val", 6), Code: int32(tp.Intn("val", 100))}
 		case "ex2":
 			p.ret = &simsvc.NotFound{Key: genString(tp, "val", 6)}
+		}
+	case "leafPing":
+		// the one method the outermost service declares itself (all others are inherited, same file or included)
+		p.args = []any{genString(tp, "val", 6)}
+		p.outcome = outcome("ok", "ok", "ex1", "undeclared")
+		p.ret = "leaf:" + genString(tp, "val", 5)
+		if p.outcome == "ex1" {
+			p.ret = &simsvc.Denied{Code: 7, Reason: genString(tp, "val", 4)}
 		}
 	case "URLFor":
 		// a method (and argument names) starting with capitalised initialisms: every name-casing rule of the generator applies
